@@ -25,7 +25,7 @@ var props = map[string]propCfg{
 	"C13": {engine: "bus", gen: true, race: true, level: "exploration", qShards: 12, tShards: 16, assume: busAssume},
 	"C14": {engine: "bus", gen: true, race: true, level: "exploration", qShards: 12, tShards: 16, assume: busAssume},
 	"C15": {engine: "bus", gen: true, race: true, raceViol: true, racePkg: "qiloop/bus/directory", level: "exploration", qShards: 12, tShards: 16, assume: busAssume},
-	"C16": {engine: "bus", gen: true, race: true, level: "exploration", qShards: 12, tShards: 16, assume: busAssume},
+	"C16": {engine: "bus", gen: true, race: true, raceViol: true, racePkg: "qiloop/bus.(*clientService)", level: "exploration", qShards: 12, tShards: 16, assume: busAssume},
 	"C17": {engine: "bus", gen: true, race: true, raceViol: true, racePkg: "qiloop/bus/net", level: "exploration", qShards: 12, tShards: 16, assume: busAssume},
 	"C19": {engine: "bus", gen: true, race: true, raceViol: true, racePkg: "qiloop/bus/session", level: "exploration", qShards: 12, tShards: 16, assume: busAssume},
 }
